@@ -213,6 +213,13 @@ def run(ctx, ck) -> None:
     nfacts = [fs for fs, _, _ in raise_paths(norm, 'ValueError')]
     neg = any(f[0] == 'truth' and f[2] is True and f[1][0] == 'call' and f[1][1] == ('var', 'any') and ("'lt'" in repr(f[1]) and "neg" in repr(f[1])) for fs in nfacts for f in fs)
     second = any(f[0] == 'in' and f[3] is True and f[1] in (('unop', 'neg', ('const', '1')), ('const', '-1')) for fs in nfacts for f in fs)
+    minus1 = (('unop', 'neg', ('const', '1')), ('const', '-1'))
+
+    def is_count(t):
+        return isinstance(t, tuple) and t and t[0] == 'call' and t[1][0] == 'attr' and t[1][2] == 'count' and len(t[2]) == 1 and t[2][0] in minus1
+
+    # or: the number of -1 entries is known to exceed one
+    second = second or any((f[0] == 'lt' and f[1] == ('const', '1') and is_count(f[2])) or (f[0] == 'le' and f[1] == ('const', '2') and is_count(f[2])) for fs in nfacts for f in fs)
     ck.expect('A2', neg, norm, 'sizes below -1 are refused', 'negative sizes other than -1 are no longer refused', instance='reshape negative size')
     ck.expect('A2', second, norm, 'a second unknown (-1) size is refused', 'a second -1 in the target shape is no longer refused', instance='reshape second unknown')
 
